@@ -51,7 +51,7 @@ def callEncode (L : EncLayer) (m : MsgIn) : Res Bytes :=
 
 /-- `_encode`: the frames (payload-level, before the gateway wrapping) and the sequence counter afterwards -/
 def encodeFrames (L : EncLayer) (seq : Nat) (m : MsgIn) : Res (Nat × List Bytes) :=
-  if 7 < m.prio ∨ 255 < m.src ∨ 0x3FFFF < m.pgn then .raised
+  if 7 < m.prio ∨ 255 < m.src ∨ 0x3FFFF < m.pgn ∨ 255 < m.dst then .raised
   else
     match callEncode L m with
     | .raised => .raised
